@@ -17,7 +17,9 @@ const LEXEMES: &[&str] = &[
     // (or bits 7 and 5) set: case folding by bit masks must not see a keyword there
     "STO\u{410}", "STO😊", "I\u{192}", "I日", "T\u{3c0}", "GOSU€", "GOSU¡", "THE\u{3b1}", "EN\u{101}", "ELS\u{161}", "RE\u{34d}", "RE한", "DAT\u{1000}", "PRIN\u{500}",
     // sizes the short alphabets never reach: long names, long strings, larger numerals
-    "ZEBRA9", "QUUX$", "WXYZ12345", "\"ABCDEFGHIJKLMNOPQRSTUVWXYZ0123456789\"", "12345", "65535", "1000000", ".001", "123.456", "0000123",
+    "ZEBRA9", "QUUX$", "WXYZ12345",
+    // long names that differ only in their first characters (hashing / truncating a name must not merge them)
+    "XPOSITION", "YPOSITION", "POSITION", "ABCDEFGHIJKLMNOP1", "ZBCDEFGHIJKLMNOP1", "LONGLONGLONGNAMEA$", "XONGLONGLONGNAMEA$", "\"ABCDEFGHIJKLMNOPQRSTUVWXYZ0123456789\"", "12345", "65535", "1000000", ".001", "123.456", "0000123",
     "\"-1\"", "\"1E3\"", "\"NAN\"", "\"inf\"", "\"+5\"", "-1", "1E3", "nan", "SC", "E", "x", "Y1", "A$", "TOTAL", "0", "1", "5", "25", ".", ".5", "\"", "\"hi\"", "<", ">", "=", "<=", "<>",
     ":", ",", ";", "$", " ", "  ", "\t", "+", "-", "*", "/", "^", "(", ")", "?", "é", "日", "%", "😊",
 ];
